@@ -2,7 +2,7 @@ CONSTANTS
   S = 4
   N = 3
   Mode = "data"
-  Kinds = {"Sum","Min","Max","TopN","Rows","GroupBy","Count","Row"}
+  Kinds = {"Sum","Min","Max","TopN","Rows","GroupBy","Count","Row","Bool"}
   Lims = {2,4}
   Vals <- ValsC
   MaxCnt = 2
